@@ -19,6 +19,7 @@ CLAIMED = {
 }
 CLAIMED.update(json.load(open(os.path.join(VERIF, "tools", "claimed_extra.json"))) if os.path.exists(os.path.join(VERIF, "tools", "claimed_extra.json")) else {})
 
+LEVELCAT = {"C19": "fault_enumeration"}
 NA_REASON = "check not built yet in this round (planned monitor: DESIGN.md section 5); not claimed"
 
 m = {
@@ -52,7 +53,7 @@ for p in props:
             "evidence_file": "evidence/%s.json" % pid,
             "replay_cmd_template": "./check %s --replay {path}" % pid,
             "engine": "check",
-            "level_claimed": {"category": "exploration", "text": text, "design_ref": dref},
+            "level_claimed": {"category": LEVELCAT.get(pid, "exploration"), "text": text, "design_ref": dref},
             "level_note": TRUST + (" " + note if note else ""),
             "technique": tech,
         })
